@@ -8,6 +8,7 @@ import (
 	"path/filepath"
 	"runtime/debug"
 	"sort"
+	"strconv"
 	"strings"
 	"time"
 
@@ -396,6 +397,21 @@ func ExecOp(h *DBH, tx *nutsdb.Tx, op Op) (res Res) {
 			return rItems(nil)
 		}
 		return rV(kvItemStr(string(e.Key), string(e.Value)))
+	case "expiry":
+		// the instant at which the pair stops being live (what a later read will show): "never", the absolute
+		// second for explicitly stamped records, or now+TTL for records that Put stamped with the current time
+		e, err := tx.Get(b, kb(op, op.Key))
+		if err != nil || e == nil {
+			return rErr()
+		}
+		f := nutsdb.VerifEntryOf(e)
+		if f.TTL == 0 {
+			return rV("never")
+		}
+		if d := int64(f.Timestamp) - time.Now().Unix(); d > -86400 && d < 86400 {
+			return rV(fmt.Sprintf("now+%d", f.TTL))
+		}
+		return rV(strconv.FormatUint(f.Timestamp+uint64(f.TTL), 10))
 	case "getall":
 		return entriesRes(tx.GetAll(b))
 	case "rangescan":
